@@ -9,9 +9,11 @@ Theorem C02_gen_mttkrp_factors_bridge : forall U n ndims, get_mttkrp_factors U n
 Proof. exact get_mttkrp_factors_bridge. Qed.
 Print Assumptions C02_gen_mttkrp_factors_bridge.
 
-(* a ktensor argument: the weights go into factor 1 when n = 0 and into factor 0 otherwise — never into the skipped
-   factor n; every other factor, in particular factor n, is returned unchanged *)
+(* a well-formed ktensor argument (every factor has a row, every row one entry per weight): the weights go into factor 1
+   when n = 0 and into factor 0 otherwise — never into the skipped factor n; every other factor, in particular factor n, is
+   returned unchanged *)
 Theorem C02_gen_mttkrp_factors_absorb : forall (k : ktz) (n : Z),
+  (forall F, In F (kt_factors k) -> F <> [] /\ forall row, In row F -> zlen row = zlen (kt_weights k)) ->
   2 <= zlen (kt_factors k) -> 0 <= n < zlen (kt_factors k) ->
   exists fs, get_mttkrp_factors (UKt k) n (zlen (kt_factors k)) = Ok fs /\ zlen fs = zlen (kt_factors k) /\
     znth [] fs (absorb_mode n) = scale_cols (kt_weights k) (znth [] (kt_factors k) (absorb_mode n)) /\
@@ -31,9 +33,24 @@ Example C02_gen_mttkrp_factors_example :
     = Ok [[[2; 3]; [4; 0]]; [[1; 2]]; [[5; 7]; [0; 1]]].
 Proof. split; reflexivity. Qed.
 
-Theorem C02_gen_mttkrp_factors_seq : forall (l : list mat) (n : Z), 0 <= n < zlen l -> get_mttkrp_factors (USeq l) n (zlen l) = Ok l.
+(* a list of matrices is returned as it is when all factors other than the skipped one have one common column count ... *)
+Theorem C02_gen_mttkrp_factors_seq : forall (l : list mat) (n c : Z),
+  0 <= n < zlen l -> (forall i, 0 <= i < zlen l -> i <> n -> np_ncols (znth [] l i) = c) ->
+  get_mttkrp_factors (USeq l) n (zlen l) = Ok l.
 Proof. exact mttkrp_factors_seq. Qed.
 Print Assumptions C02_gen_mttkrp_factors_seq.
+
+(* ... and rejected when two of them differ (repaired defect: the first R columns were used / a single column was broadcast) *)
+Theorem C02_gen_mttkrp_factors_rejects_columns : forall (l : list mat) (n i j : Z),
+  0 <= i < zlen l -> 0 <= j < zlen l -> i <> n -> j <> n -> np_ncols (znth [] l i) <> np_ncols (znth [] l j) ->
+  get_mttkrp_factors (USeq l) n (zlen l) = Err.
+Proof. exact mttkrp_factors_rejects_columns. Qed.
+Print Assumptions C02_gen_mttkrp_factors_rejects_columns.
+
+Example C02_gen_mttkrp_factors_columns_example :
+  get_mttkrp_factors (USeq [[[1; 2]]; [[3; 4; 5]]; [[6; 7]]]) 1 3 = Ok [[[1; 2]]; [[3; 4; 5]]; [[6; 7]]] /\
+  get_mttkrp_factors (USeq [[[1; 2]]; [[3; 4; 5]]; [[6; 7]]]) 0 3 = Err.
+Proof. split; reflexivity. Qed.
 
 Theorem C02_gen_mttkrp_factors_rejects : forall (U : kt_or_seq) (n ndims : Z),
   ~ (0 <= n < ndims) \/ zlen (match U with UKt k => kt_factors k | USeq l => l end) <> ndims ->
